@@ -545,4 +545,266 @@ theorem mergeStack_inv : ∀ (rest : List GE) (e0 : GE) (ps : List Nat) (st : σ
           · exact hn'
         | cons e2 es' => exact hn (by simp)
 
+/-! ### `BTreeMap` collection: sorted, de-duplicated, later value wins -/
+
+theorem mem_btreeInsert (k v : Bytes) : ∀ (L : List (Bytes × Bytes)) (x : Bytes × Bytes),
+    x ∈ btreeInsert k v L → x = (k, v) ∨ x ∈ L
+  | [], x, h => by simp only [btreeInsert, List.mem_singleton] at h; exact Or.inl h
+  | (k', v') :: rest, x, h => by
+    unfold btreeInsert at h
+    by_cases e : k = k'
+    · rw [if_pos e] at h
+      rcases List.mem_cons.mp h with h | h
+      · exact Or.inl h
+      · exact Or.inr (List.mem_cons_of_mem _ h)
+    · rw [if_neg e] at h
+      by_cases l : bytesLt k k' = true
+      · rw [if_pos l] at h
+        rcases List.mem_cons.mp h with h | h
+        · exact Or.inl h
+        · exact Or.inr h
+      · rw [if_neg l] at h
+        rcases List.mem_cons.mp h with h | h
+        · exact Or.inr (h ▸ List.mem_cons_self ..)
+        · rcases mem_btreeInsert k v rest x h with h | h
+          · exact Or.inl h
+          · exact Or.inr (List.mem_cons_of_mem _ h)
+
+/-- strictly ascending keys -/
+def Asc (L : List (Bytes × Bytes)) : Prop := L.Pairwise (fun x y => bytesLt x.1 y.1 = true)
+
+theorem btreeInsert_asc (k v : Bytes) (hk : k.length = keyBytes) : ∀ (L : List (Bytes × Bytes)),
+    (∀ x ∈ L, x.1.length = keyBytes) → Asc L → Asc (btreeInsert k v L)
+  | [], _, _ => by simp [btreeInsert, Asc]
+  | (k', v') :: rest, hl, ha => by
+    have ha' := List.pairwise_cons.mp ha
+    unfold btreeInsert
+    by_cases e : k = k'
+    · rw [if_pos e]
+      subst e
+      exact List.pairwise_cons.mpr ⟨ha'.1, ha'.2⟩
+    · rw [if_neg e]
+      by_cases l : bytesLt k k' = true
+      · rw [if_pos l]
+        refine List.pairwise_cons.mpr ⟨?_, ha⟩
+        intro y hy
+        rcases List.mem_cons.mp hy with rfl | hy
+        · exact l
+        · exact bytesLt_trans _ _ _ l (ha'.1 y hy)
+      · rw [if_neg l]
+        have hk' : k'.length = keyBytes := hl (k', v') (List.mem_cons_self ..)
+        have hgt : bytesLt k' k = true := by
+          rcases bytesLt_total k k' (by rw [hk, hk']) e with h | h
+          · exact absurd h l
+          · exact h
+        refine List.pairwise_cons.mpr ⟨?_, btreeInsert_asc k v hk rest
+          (fun x hx => hl x (List.mem_cons_of_mem _ hx)) ha'.2⟩
+        intro y hy
+        rcases mem_btreeInsert k v rest y hy with rfl | hy
+        · exact hgt
+        · exact ha'.1 y hy
+
+theorem btreeCollect_spec : ∀ (set acc : List (Bytes × Bytes)),
+    (∀ x ∈ set, x.1.length = keyBytes) → (∀ x ∈ acc, x.1.length = keyBytes) → Asc acc →
+    (∀ x ∈ set.foldl (fun m kv => btreeInsert kv.1 kv.2 m) acc, x.1.length = keyBytes) ∧
+      Asc (set.foldl (fun m kv => btreeInsert kv.1 kv.2 m) acc)
+  | [], acc, _, ha, hs => ⟨ha, hs⟩
+  | kv :: set, acc, hset, ha, hs => by
+    simp only [List.foldl_cons]
+    have hkv := hset kv (List.mem_cons_self ..)
+    apply btreeCollect_spec set _ (fun x hx => hset x (List.mem_cons_of_mem _ hx))
+    · intro x hx
+      rcases mem_btreeInsert kv.1 kv.2 acc x hx with rfl | hx
+      · exact hkv
+      · exact ha x hx
+    · exact btreeInsert_asc kv.1 kv.2 hkv acc ha hs
+
+theorem lookup_btreeInsert (k v q : Bytes) : ∀ (L : List (Bytes × Bytes)),
+    lookup q (btreeInsert k v L) = if k = q then some v else lookup q L
+  | [] => by simp [btreeInsert, lookup]
+  | (k', v') :: rest => by
+    unfold btreeInsert
+    by_cases e : k = k'
+    · subst e
+      by_cases eq : k = q <;> simp [lookup, eq]
+    · rw [if_neg e]
+      by_cases l : bytesLt k k' = true
+      · rw [if_pos l]
+        by_cases eq : k = q <;> simp [lookup, eq]
+      · rw [if_neg l]
+        simp only [lookup]
+        rw [lookup_btreeInsert k v q rest]
+        by_cases eq : k = q
+        · subst eq
+          have : ¬ k' = k := fun h => e h.symm
+          simp [this]
+        · simp [eq]
+
+theorem lookup_alInsert (k v q : Bytes) (L : List (Bytes × Bytes)) :
+    lookup q (alInsert k v L) = if k = q then some v else lookup q L := by
+  simp only [alInsert, lookup, lookup_alErase]
+  by_cases e : k = q <;> simp [e]
+
+theorem lookup_map_val (f : Bytes → Bytes) (q : Bytes) : ∀ (L : List (Bytes × Bytes)),
+    lookup q (L.map (fun kv => (kv.1, f kv.2))) = (lookup q L).map f
+  | [] => rfl
+  | (k, v) :: rest => by
+    simp only [List.map_cons, lookup]
+    by_cases e : k = q
+    · simp [e]
+    · simp only [e, ↓reduceIte]; exact lookup_map_val f q rest
+
+/-- the map C12's statement folds from the set agrees with the `BTreeMap` collection, value hashed -/
+theorem fold_agree : ∀ (set accB accM : List (Bytes × Bytes)),
+    (∀ q, lookup q accM = (lookup q accB).map H) →
+    ∀ q, lookup q (set.foldl (fun m kv => alInsert kv.1 (H kv.2) m) accM) =
+      (lookup q (set.foldl (fun m kv => btreeInsert kv.1 kv.2 m) accB)).map H
+  | [], _, _, h => h
+  | kv :: set, accB, accM, h => by
+    simp only [List.foldl_cons]
+    apply fold_agree set
+    intro q
+    rw [lookup_alInsert, lookup_btreeInsert, h q]
+    by_cases e : kv.1 = q <;> simp [e]
+
+theorem fold_nodup : ∀ (set accM : List (Bytes × Bytes)), KeysNodup accM →
+    KeysNodup (set.foldl (fun m kv => alInsert kv.1 (H kv.2) m) accM)
+  | [], _, h => h
+  | kv :: set, accM, h => by
+    simp only [List.foldl_cons]
+    exact fold_nodup set _ (keysNodup_alInsert _ _ _ h)
+
+/-! ### `get` on a canonical tree is the lookup in its leaf list -/
+
+theorem lookup_append (q : Bytes) : ∀ (A B : List (Bytes × Bytes)),
+    lookup q (A ++ B) = (match lookup q A with
+      | some v => some v
+      | none => lookup q B)
+  | [], _ => rfl
+  | (k, v) :: A, B => by
+    simp only [List.cons_append, lookup]
+    by_cases e : k = q
+    · simp [e]
+    · simp only [e, ↓reduceIte]; exact lookup_append q A B
+
+theorem lookup_none_of_all {p : Bytes → Prop} {q : Bytes} (hq : ¬ p q) : ∀ (t : T), t.All p →
+    lookup q t.toList = none
+  | .empty, _ => rfl
+  | .leaf k v, h => by
+    have : k ≠ q := fun e => hq (e ▸ h)
+    simp [Tree.toList, lookup, this]
+  | .node l r, h => by
+    simp only [Tree.toList]
+    rw [lookup_append, lookup_none_of_all hq l h.1, lookup_none_of_all hq r h.2]
+
+theorem get_eq_lookup (q : Bytes) : ∀ (t : T) (d : Nat), Canon bitOf maxHeight d t →
+    Smt.get bitOf d q t = lookup q t.toList
+  | .empty, _, _ => rfl
+  | .leaf k v, _, _ => by simp [Smt.get, Tree.toList, lookup]
+  | .node l r, d, hc => by
+    obtain ⟨_, hl, hr, _, hcl, hcr⟩ := hc
+    simp only [Smt.get, Tree.toList]
+    rw [lookup_append]
+    cases hb : bitOf q d with
+    | true =>
+      simp only [↓reduceIte]
+      rw [lookup_none_of_all (p := fun k => bitOf k d = false) (by simp [hb]) l hl]
+      exact get_eq_lookup q r (d + 1) hcr
+    | false =>
+      simp only [Bool.false_eq_true, ↓reduceIte]
+      rw [get_eq_lookup q l (d + 1) hcl]
+      cases hlk : lookup q l.toList with
+      | some v => rfl
+      | none =>
+        simp only
+        exact (lookup_none_of_all (p := fun k => bitOf k d = true) (by simp [hb]) r hr).symm
+
+/-! ### `from_set` -/
+
+/-- **`MerkleTree::from_set`**, on any node store: it never fails, and its root node encodes a canonical
+structural tree whose leaves are the sorted, de-duplicated set (values hashed) -/
+theorem fromSet_spec (st : σ) (set : List (Bytes × Bytes)) (hk : ∀ kv ∈ set, kv.1.length = keyBytes) :
+    ∃ (t : T) (st' : σ), fromSet H S st set = .ok ⟨enc H 0 t, st'⟩ ∧ Canon bitOf maxHeight 0 t ∧
+      t.toList = (btreeCollect set).map (kvH H) := by
+  have hmh := maxHeight_eq
+  obtain ⟨hlen, hasc⟩ := btreeCollect_spec set [] hk (by simp) (by simp [Asc])
+  unfold fromSet
+  simp only
+  generalize hsorted : btreeCollect set = sorted at *
+  have hlen' : ∀ x ∈ sorted, x.1.length = keyBytes := by rw [← hsorted]; exact hlen
+  have hasc' : Asc sorted := by rw [← hsorted]; exact hasc
+  match sorted, hlen', hasc' with
+  | [], _, _ => exact ⟨.empty, _, rfl, trivial, rfl⟩
+  | [kv], _, _ => exact ⟨.leaf kv.1 (H kv.2), _, rfl, trivial, rfl⟩
+  | kv1 :: kv2 :: more, hl, ha =>
+    -- the leaves are scanned from the largest key down
+    have hrev : ∃ kN ls, (kv1 :: kv2 :: more).reverse = kN :: ls ∧ ls ≠ [] := by
+      cases hr : (kv1 :: kv2 :: more).reverse with
+      | nil => simp at hr
+      | cons kN ls =>
+        refine ⟨kN, ls, rfl, ?_⟩
+        intro e; subst e
+        have := congrArg List.length hr
+        simp at this
+    obtain ⟨kN, ls, hr, hlsne⟩ := hrev
+    have hmem : ∀ x, x ∈ kN :: ls ↔ x ∈ kv1 :: kv2 :: more := by
+      intro x; rw [← hr, List.mem_reverse]
+    have hpw : List.Pairwise (fun x y : Bytes × Bytes => bytesLt y.1 x.1 = true) (kN :: ls) := by
+      rw [← hr, List.pairwise_reverse]; exact ha
+    have hkN : kN.1.length = keyBytes := hl kN ((hmem kN).mp (List.mem_cons_self ..))
+    have hmapr : (List.map (fun kv => (⟨(Node.createLeaf H kv.1 kv.2).leafKey, Node.createLeaf H kv.1 kv.2⟩ : Branch))
+        (kv1 :: kv2 :: more)).reverse = mkBranch H kN :: ls.map (mkBranch H) := by
+      rw [← List.map_reverse, hr]; rfl
+    simp only [List.map_cons] at hmapr ⊢
+    rw [hmapr]
+    -- first leaf: pushed on the empty stack
+    unfold scanLeaves
+    obtain ⟨es', ps', st1, hscan, hinv, hne, hflat⟩ := scanLeaves_inv H S ls kN [] [] _
+      (leafGE_ent H kN hkN) hkN (fun x hx => hl x ((hmem x).mp (List.mem_cons_of_mem _ hx))) hpw
+    have hscan' := hscan
+    simp only [List.map_cons, List.map_nil] at hscan'
+    have : (leafGE H kN).b = mkBranch H kN := rfl
+    rw [this] at hscan'
+    rw [hscan']
+    simp only
+    cases es' with
+    | nil => exact absurd rfl hne
+    | cons e0 rest =>
+      simp only [List.map_cons]
+      obtain ⟨M, st2, hms, hent, hlist, hnode⟩ := mergeStack_inv H S rest e0 ps' st1 hinv
+      rw [hms]
+      simp only
+      -- at least two leaves, so the merged entry is an internal node
+      have hlen2 : 2 ≤ M.t.toList.length := by
+        rw [hlist, hflat]
+        cases ls with
+        | nil => exact absurd rfl hlsne
+        | cons x xs =>
+          simp only [flat, List.flatMap_cons, List.flatMap_nil, List.append_nil, List.reverse_cons,
+            List.map_append, List.map_cons, List.map_nil, List.length_append, List.length_map,
+            List.length_reverse, List.length_cons, List.length_nil, leafGE, Tree.toList]
+          omega
+      have hn : IsNode M.t := by
+        rcases hent.shape with ⟨v, ht, _⟩ | ⟨hn, _⟩
+        · rw [ht] at hlen2; simp [Tree.toList] at hlen2
+        · exact hn
+      have hh := enc_node_height H (d := M.c) hn
+      rw [hent.node, hh]
+      rw [if_neg (by omega)]
+      have e1 : maxHeight - (maxHeight - M.c) = M.c := by have := hent.c_le; omega
+      rw [e1]
+      obtain ⟨st3, hch⟩ := placeholderChain_enc H S M.b.bits hent.len M.c M.c M.t st2 hn (Nat.le_refl _) hent.c_le
+      rw [hch]
+      simp only [Nat.sub_self]
+      refine ⟨padT M.b.bits M.c M.c M.t, st3, rfl, ?_, ?_⟩
+      · have := padT_canon M.b.bits M.c M.c M.t hn (Nat.le_refl _) hent.c_le hent.canon hent.agree
+        rw [Nat.sub_self] at this
+        exact this
+      · rw [padT_toList, hlist, hflat]
+        simp only [flat, List.flatMap_cons, List.flatMap_nil, List.append_nil, leafGE, Tree.toList]
+        have : (kv1 :: kv2 :: more) = (kN :: ls).reverse := by rw [← hr, List.reverse_reverse]
+        show _ = List.map (kvH H) (kv1 :: kv2 :: more)
+        rw [this, List.reverse_cons, List.map_append]
+        rfl
+
 end FuelVerif.SmtFromSet
